@@ -162,21 +162,24 @@ def gen_cases(tier, rng):
     add(conversation(version=0x00080001), "valid:creds", dom=b"", user=b"", pw=b"", ram=1)
     add(conversation()[:5] + [lic_wrap(lic_new_license())], "valid:newlicense")
     add(conversation()[:5] + [license_frame(uid=UID, chan=UID)], "valid:userchan")
-    # ---- the public entry point Connector::connect (offers SSL [| HYBRID]; a server selecting plain RDP is followed today)
-    def addc(frames, tag, **kw):
-        cases.append((conn_case(frames, **kw).replace("conn ", "connector ", 1), ("c05", "connector:" + tag)))
+    # ---- the public entry point Connector::connect (offers SSL [| HYBRID]): the server selects SSL and the rest of the
+    # conversation, faults included, runs inside TLS (in-process acceptor of harness/src/negotiate.rs)
+    def addc(frames, tag, offered=1, ram=0, order="g", **kw):
+        cases.append((neg_case(frames[0] if frames else None, frames[1:], api="connector", offered=offered, auth=1, ram=ram, check=0, ident="0", order=order, **kw),
+                      ("c05", "connector:" + tag)))
+    base_tls = conversation(uid=UID, selected=1, order="g")
     for (off, ram) in ((1, 0), (3, 0), (3, 1), (1, 1)):
         for order in "gu":
             for sel in (0, 1, 2, 8, 5):
-                addc(conversation(selected=sel, order=order, version=0x00080001 if ram else 0x00080004), "valid", offered=off, auth=1, ram=ram, order=order,
+                addc(conversation(selected=sel, order=order, version=0x00080001 if ram else 0x00080004), "valid", offered=off, ram=ram, order=order,
                      dom=b"dom", user=b"user", pw=b"password")
         for k in range(6):
-            fr = base[k]
+            fr = base_tls[k]
             for i in range(len(fr)):
                 for v in (0, 1, 0x7f, 0x80, 0xff, fr[i] ^ 1, fr[i] ^ 0x10):
-                    if v != fr[i]: addc(base[:k] + [fr[:i] + bytes([v]) + fr[i + 1:]] + base[k + 1:], STEPS[k] + ":byte", offered=off, auth=1, ram=ram)
-            for cut in range(0, len(fr), 2):
-                addc(base[:k] + [tpkt(fr[4:cut])] if cut >= 4 else base[:k] + [fr[:cut]], STEPS[k] + ":trunc", offered=off, auth=1, ram=ram)
+                    if v != fr[i]: addc(base_tls[:k] + [fr[:i] + bytes([v]) + fr[i + 1:]] + base_tls[k + 1:], STEPS[k] + ":byte", offered=off, ram=ram)
+            for cut in range(4, len(fr), 2):
+                addc(base_tls[:k] + [tpkt(fr[4:cut])] + base_tls[k + 1:], STEPS[k] + ":trunc", offered=off, ram=ram)
     add([], "silent")
     for k in range(1, 6): add(conversation()[:k], "silent")
 
@@ -322,6 +325,7 @@ def classify(line, out):
 def shape(line):
     t = line.split()
     if t[0] in ("conn", "connector"): return "%s:%d" % (t[0], len(t) - 9)
+    if t[0] == "neg": return "neg:%s:%d" % (t[1], len(t) - 13)
     return t[0]
 
 def nontrivial(line, out):
